@@ -1076,6 +1076,20 @@ fn run_cache(cap: u64, ops: &[&str]) -> String {
                 None => s.push_str(" g=0"),
             },
             "c" => write!(s, " c={}", c.contains(&key.unwrap()) as u8).unwrap(),
+            "v" => {
+                // typed lookup (redb feature): Transaction::from_bytes unwraps, so other bytes panic (v=2)
+                let k = key.unwrap();
+                let tok = (|| catch_unwind(AssertUnwindSafe(|| match c.get_value::<bsl::Transaction>(&k) {
+                    None => " v=0".to_string(),
+                    Some(t) => {
+                        let base = c.get(&k).unwrap();
+                        let (a, b, cc) = t.txid_preimage();
+                        format!(" v=1,{},{},{},{},{},{},{}", t.as_ref().len(), t.version() as u32, t.locktime(),
+                                pws(base, a), pws(base, b), pws(base, cc), t.weight())
+                    }
+                })).unwrap_or_else(|_| " v=2".to_string()))();
+                s.push_str(&tok);
+            }
             "l" => write!(s, " l={}", c.len()).unwrap(),
             "f" => write!(s, " f={}", c.full() as u8).unwrap(),
             _ => panic!("bad op"),
